@@ -1,6 +1,7 @@
 //! Sequential engines: ring search, block environment search, graph program
 //! enumeration, input enumeration.
 mod envcheck;
+mod crashx;
 mod envx;
 mod graphx;
 mod hdlc;
@@ -34,6 +35,7 @@ fn main() {
             "graphx" => graphx::replay_json(&v["replay"]),
             "repeatx" => repeatx::replay_json(&v["replay"]),
             "hdlc" => hdlc::replay_json(&v["replay"]),
+            "crashx" => crashx::replay_json(&v["replay"]),
             e => Err(format!("unknown engine {e:?}")),
         };
         match r {
@@ -59,6 +61,7 @@ fn main() {
         "graph" => graphx::run(tier, shard),
         "repeat" => repeatx::run(tier),
         "hdlc" => hdlc::run(tier, shard),
+        "crash" => crashx::run(tier, shard),
         _ => usage(),
     };
     rep.emit();
